@@ -7,26 +7,43 @@ module S = Stdlib.String
 
 type obs = string   (* canonical text of one output *)
 
-let out_s (o : (Value.kv, Value.kv) Core.out) : obs =
+let val_s (v : CoreKv.cval) : string = match v with
+  | CoreKv.VM m -> "M " ^ Absparse.kv_s m
+  | CoreKv.VC l -> "C " ^ Absparse.list_s l
+let upd_s (u : CoreKv.cupd) : string = match u with
+  | CoreKv.UChange p -> "change " ^ Absparse.kv_s p
+  | CoreKv.UAdd (i, x) -> Printf.sprintf "add %d %s" (int_of_nat i) (Absparse.value_s x)
+  | CoreKv.URemove i -> Printf.sprintf "remove %d" (int_of_nat i)
+let out_s (o : (CoreKv.cval, CoreKv.cupd) Core.out) : obs =
   match o with
   | Core.OMqSub -> "mqsub"
-  | Core.OAccessReq c -> "accessreq c" ^ string_of_int (int_of_nat c)
+  | Core.OAccessReq (c, _) -> "accessreq c" ^ string_of_int (int_of_nat c)
   | Core.OGetReq -> "getreq"
-  | Core.OResp (c, id, v) -> Printf.sprintf "resp c%d %d %s" (int_of_nat c) (int_of_nat id) (Absparse.kv_s v)
-  | Core.OEvent (c, u) -> Printf.sprintf "change c%d %s" (int_of_nat c) (Absparse.kv_s u)
+  | Core.OErr (c, id, e) -> Printf.sprintf "err c%d %d %s" (int_of_nat c) (int_of_nat id)
+                              (match e with Core.EDenied -> "system.accessDenied" | Core.ENoSub -> "system.noSubscription" | Core.EInvalid -> "system.invalidParams")
+  | Core.OAck (c, id, _) -> Printf.sprintf "resp c%d %d -" (int_of_nat c) (int_of_nat id)
+  | Core.OConnUnsub c -> Printf.sprintf "connunsub c%d" (int_of_nat c)
+  | Core.OResp (c, id, Some v) -> Printf.sprintf "resp c%d %d %s" (int_of_nat c) (int_of_nat id) (val_s v)
+  | Core.OResp (c, id, None) -> Printf.sprintf "resp c%d %d -" (int_of_nat c) (int_of_nat id)
+  | Core.OEvent (c, u) -> Printf.sprintf "event c%d %s" (int_of_nat c) (upd_s u)
   | Core.OCustom c -> Printf.sprintf "custom c%d" (int_of_nat c)
 
-let op_s (o : Value.kv Core.op) : string =
+let op_s (o : CoreKv.cupd Core.op) : string =
   match o with
   | Core.CSub (c, id) -> Printf.sprintf "CSub c%d %d" (int_of_nat c) (int_of_nat id)
-  | Core.MqAccess c -> Printf.sprintf "MqAccess c%d" (int_of_nat c)
+  | Core.MqAccess (i, g) -> Printf.sprintf "MqAccess #%d %b" (int_of_nat i) g
+  | Core.CUnsub (c, id, k) -> Printf.sprintf "CUnsub c%d %d %d" (int_of_nat c) (int_of_nat id) (int_of_nat k)
+  | Core.Disc c -> Printf.sprintf "Disc c%d" (int_of_nat c)
   | Core.MqGet -> "MqGet"
-  | Core.MqEvent u -> "MqEvent " ^ Absparse.kv_s u
+  | Core.MqEvent u -> "MqEvent " ^ upd_s u
   | Core.MqCustom -> "MqCustom"
   | Core.GrantEs -> "GrantEs"
   | Core.GrantConn c -> Printf.sprintf "GrantConn c%d" (int_of_nat c)
 
 exception Out_of_profile of int * string
+
+let cover : (string, int) Hashtbl.t = Hashtbl.create 32
+let bump k = Hashtbl.replace cover k (1 + (try Hashtbl.find cover k with Not_found -> 0))
 
 let cidx (s : string) : int = int_of_string (S.sub s 1 (S.length s - 1))
 
@@ -41,16 +58,20 @@ let check_file (path : string) =
   (* initial state of the service: INIT line *)
   let init_truth = ref None in
   Array.iter (fun l -> match S.split_on_char '\t' l with
-      | ["INIT"; _; "M"; kv] when !init_truth = None -> init_truth := Some (Absparse.kv_of kv)
-      | ["INIT"; _; "M"] when !init_truth = None -> init_truth := Some []
+      | ["INIT"; _; "M"; kv] when !init_truth = None -> init_truth := Some (CoreKv.VM (Absparse.kv_of kv))
+      | ["INIT"; _; "M"] when !init_truth = None -> init_truth := Some (CoreKv.VM [])
+      | ["INIT"; _; "C"; l] when !init_truth = None -> init_truth := Some (CoreKv.VC (Absparse.list_of l))
+      | ["INIT"; _; "C"] when !init_truth = None -> init_truth := Some (CoreKv.VC [])
       | _ -> ()) lines;
   let truth0 = match !init_truth with Some t -> t | None -> raise (Out_of_profile (0, "no INIT line")) in
   let st = ref (CoreKv.kinit truth0) in
   let foreign : (int, int) Hashtbl.t = Hashtbl.create 8 in       (* requests outside the model ahead in a connection's queue *)
   let asked : (int, bool) Hashtbl.t = Hashtbl.create 8 in
   let reqs : (int, string * int) Hashtbl.t = Hashtbl.create 16 in  (* messaging request number -> kind, connection *)
-  let pending : (int * Value.kv Core.op * obs list) option ref = ref None in  (* line, op, expected outputs *)
+  let pending : (int * CoreKv.cupd Core.op * obs list) option ref = ref None in  (* line, op, expected outputs *)
   let observed = ref [] in
+  let exp_insts = ref [] and obs_nums = ref [] in                 (* access requests of the pending op: instances / request numbers *)
+  let inst_of_req : (int, int) Hashtbl.t = Hashtbl.create 16 in
   let nops = ref 0 and nouts = ref 0 in
   let diff = ref None in
   let flush () =
@@ -61,12 +82,56 @@ let check_file (path : string) =
        if !diff = None && exp <> obs then diff := Some (ln, op_s o, S.concat " | " exp, S.concat " | " obs)
      | None ->
        if !diff = None && !observed <> [] then diff := Some (0, "(before the first op)", "", S.concat " | " (L.rev !observed)));
+    (try L.iter2 (fun i n -> Hashtbl.replace inst_of_req n i) (L.rev !exp_insts) (L.rev !obs_nums) with Invalid_argument _ -> ());
+    exp_insts := []; obs_nums := [];
     pending := None; observed := [] in
-  let do_op ln (o : Value.kv Core.op) =
+  let do_op ln (o : CoreKv.cupd Core.op) =
     flush ();
     incr nops;
+    (match o with
+     | Core.GrantEs ->
+       (match (!st).Core.cv.Conv.qe with
+        | Conv.IRemSub _ :: _ -> bump "release"
+        | Conv.INop _ :: _ -> bump "access-through-resource-queue"
+        | Conv.IGetResp _ :: _ -> bump "get-response"
+        | Conv.IAddSub s :: _ -> bump (if ((!st).Core.cv.Conv.subs s).Conv.closed then "add-subscriber-of-closed-connection" else "add-subscriber")
+        | Conv.IEvent _ :: _ -> bump "event" | Conv.ICustom :: _ -> bump "custom" | [] -> bump "empty-grant")
+     | Core.GrantConn c ->
+       let x = (!st).Core.conns c in
+       let sub i = (!st).Core.cv.Conv.subs i in
+       (match x.Core.cqueue with
+        | Core.QAccess i :: _ ->
+          let y = sub i in
+          bump (if y.Conv.gone then "access-answer-after-dispose"
+                else match ((!st).Core.insts i).Core.ans with
+                  | Some true -> if L.length ((!st).Core.insts i).Core.acb > 1 then "access-granted-several-waiting" else "access-granted"
+                  | Some false -> "access-denied" | None -> "access-item-without-answer")
+        | Core.QSub i :: _ ->
+          let y = sub i in
+          (match y.Conv.cq with
+           | Conv.CLoaded :: _ -> bump (if y.Conv.gone then "loaded-after-dispose" else if L.length ((!st).Core.insts i).Core.rcb > 1 then "loaded-several-waiting" else "loaded")
+           | Conv.CEvent _ :: _ -> bump (if y.Conv.gone then "event-after-dispose" else if y.Conv.flag then "event-held" else "event-delivered")
+           | [] -> bump "sub-item-missing")
+        | Core.QDispose :: _ ->
+          (match x.Core.cur with
+           | Some i -> bump (if (sub i).Conv.loaded then "close-loaded" else "close-loading")
+           | None -> bump "close-idle")
+        | Core.QReq _ :: _ ->
+          (match x.Core.cur with
+           | None -> bump (if int_of_nat (!st).Core.next > 0 && L.exists (fun j -> int_of_nat ((!st).Core.insts (nat_of_int j)).Core.owner = int_of_nat c) (L.init (int_of_nat (!st).Core.next) (fun j -> j)) then "request-resubscribe" else "request-first")
+           | Some i -> bump (match ((!st).Core.insts i).Core.acc with
+               | Some true -> if (sub i).Conv.loaded then "request-again-served-at-once" else "request-again-waits-for-resource"
+               | _ -> "request-again-waits-for-access"))
+        | Core.QUnsub (_, k) :: _ ->
+          (match x.Core.cur with
+           | Some _ -> bump (if int_of_nat k = 0 then "unsubscribe-bad-count" else if int_of_nat k > int_of_nat x.Core.direct then "unsubscribe-too-many"
+                             else if int_of_nat k = int_of_nat x.Core.direct then "unsubscribe-last" else "unsubscribe-some")
+           | None -> bump "unsubscribe-nothing")
+        | [] -> bump "empty-grant")
+     | _ -> ());
     let (s', outs) = CoreKv.kstep !st o in
     st := s';
+    L.iter (fun o -> match o with Core.OAccessReq (_, i) -> exp_insts := int_of_nat i :: !exp_insts | _ -> ()) outs;
     pending := Some (ln, o, L.map out_s outs) in
   let see (o : obs) = observed := o :: !observed in
   let i = ref 0 in
@@ -78,6 +143,11 @@ let check_file (path : string) =
        let ci = cidx c in
        Hashtbl.replace asked ci true;
        do_op ln (Core.CSub (nat_of_int ci, nat_of_int (int_of_string id)))
+     | "REQ" :: c :: id :: "unsubscribe" :: _ :: cnt :: _ ->
+       let ci = cidx c in
+       Hashtbl.replace asked ci true;
+       let k = (if cnt = "-" then 1 else match int_of_string_opt cnt with Some k when k > 0 -> k | _ -> 0) in
+       do_op ln (Core.CUnsub (nat_of_int ci, nat_of_int (int_of_string id), nat_of_int k))
      | "REQ" :: c :: _ :: _ ->
        let ci = cidx c in
        if Hashtbl.mem asked ci then raise (Out_of_profile (ln, "request other than subscribe after the subscribe request"));
@@ -97,36 +167,60 @@ let check_file (path : string) =
         | None -> raise (Out_of_profile (ln, "grant " ^ g)))
      | "MQSUB" :: "event" :: _ -> see "mqsub"
      | "MQREQ" :: num :: "access" :: _ :: _ :: c :: _ ->
-       Hashtbl.replace reqs (int_of_string num) ("access", cidx c); see ("accessreq " ^ c)
+       Hashtbl.replace reqs (int_of_string num) ("access", cidx c); obs_nums := int_of_string num :: !obs_nums; see ("accessreq " ^ c)
      | "MQREQ" :: num :: "get" :: _ ->
        Hashtbl.replace reqs (int_of_string num) ("get", 0); see "getreq"
      | "MQREQ" :: _ :: typ :: _ -> see ("mqreq " ^ typ)
-     | "MQRESP" :: num :: "access" :: "1" :: _ ->
+     | "MQRESP" :: num :: "access" :: g :: _ when g = "1" || g = "0" ->
        (match Hashtbl.find_opt reqs (int_of_string num) with
-        | Some ("access", ci) -> do_op ln (Core.MqAccess (nat_of_int ci))
+        | Some ("access", _) ->
+          flush ();
+          (match Hashtbl.find_opt inst_of_req (int_of_string num) with
+           | Some i -> do_op ln (Core.MqAccess (nat_of_int i, g = "1"))
+           | None -> raise (Out_of_profile (ln, "answer to an access request the model did not make")))
         | _ -> raise (Out_of_profile (ln, "answer to an unknown request")))
-     | "MQRESP" :: _ :: "get" :: "M" :: rest ->
-       let v = (match rest with kv :: _ -> Absparse.kv_of kv | [] -> []) in
+     | "MQRESP" :: num :: "err" :: "system.accessDenied" :: _ when (match Hashtbl.find_opt reqs (int_of_string num) with Some ("access", _) -> true | _ -> false) ->
+       (match Hashtbl.find_opt reqs (int_of_string num) with
+        | Some ("access", _) ->
+          flush ();
+          (match Hashtbl.find_opt inst_of_req (int_of_string num) with
+           | Some i -> do_op ln (Core.MqAccess (nat_of_int i, false))
+           | None -> raise (Out_of_profile (ln, "answer to an access request the model did not make")))
+        | _ -> ())
+     | "MQRESP" :: _ :: "get" :: (("M" | "C") as k) :: rest ->
+       let v = (match k, rest with
+           | "M", kv :: _ -> CoreKv.VM (Absparse.kv_of kv) | "M", [] -> CoreKv.VM []
+           | _, l :: _ -> CoreKv.VC (Absparse.list_of l) | _, [] -> CoreKv.VC []) in
        let t = CoreKv.ktruth !st in
-       if Absparse.kv_s v <> Absparse.kv_s t then raise (Out_of_profile (ln, "get answer differs from the service state the model tracks"));
+       if val_s v <> val_s t then raise (Out_of_profile (ln, "get answer differs from the service state the model tracks"));
        do_op ln Core.MqGet
      | "MQRESP" :: _ -> raise (Out_of_profile (ln, "service answer: " ^ lines.(!i)))
-     | "MQEV" :: _ :: "change" :: kv :: _ -> do_op ln (Core.MqEvent (Absparse.kv_of kv))
+     | "MQEV" :: _ :: "change" :: kv :: _ -> do_op ln (Core.MqEvent (CoreKv.UChange (Absparse.kv_of kv)))
+     | "MQEV" :: _ :: "add" :: idx :: v :: _ when int_of_string idx >= 0 -> do_op ln (Core.MqEvent (CoreKv.UAdd (nat_of_int (int_of_string idx), Absparse.value_of v)))
+     | "MQEV" :: _ :: "remove" :: idx :: _ when int_of_string idx >= 0 -> do_op ln (Core.MqEvent (CoreKv.URemove (nat_of_int (int_of_string idx))))
      | "MQEV" :: _ :: "custom" :: _ -> do_op ln Core.MqCustom
      | "MQEV" :: _ -> raise (Out_of_profile (ln, "service event: " ^ lines.(!i)))
      | "RESP" :: _ :: _ :: "version" :: _ -> ()
      | "RESP" :: c :: id :: "ok" :: rs :: _ ->
        (match S.split_on_char '~' rs with
-        | ["M"; _; kv] -> see (Printf.sprintf "resp %s %s %s" c id (Absparse.kv_s (Absparse.kv_of kv)))
-        | ["M"; _] -> see (Printf.sprintf "resp %s %s " c id)
+        | ["M"; _; kv] -> see (Printf.sprintf "resp %s %s M %s" c id (Absparse.kv_s (Absparse.kv_of kv)))
+        | ["M"; _] -> see (Printf.sprintf "resp %s %s M " c id)
+        | ["C"; _; l] -> see (Printf.sprintf "resp %s %s C %s" c id (Absparse.list_s (Absparse.list_of l)))
+        | ["C"; _] -> see (Printf.sprintf "resp %s %s C " c id)
+        | ["-"] -> see (Printf.sprintf "resp %s %s -" c id)
         | _ -> see ("resp " ^ c ^ " " ^ id ^ " ?" ^ rs))
+     | "RESP" :: c :: id :: "err" :: code :: _ -> see ("err " ^ c ^ " " ^ id ^ " " ^ code)
      | "RESP" :: c :: id :: rest -> see ("resp " ^ c ^ " " ^ id ^ " ?" ^ S.concat "," rest)
-     | "EV" :: c :: _ :: "change" :: kv :: _ -> see (Printf.sprintf "change %s %s" c (Absparse.kv_s (Absparse.kv_of kv)))
+     | "EV" :: c :: _ :: "change" :: kv :: _ -> see (Printf.sprintf "event %s change %s" c (Absparse.kv_s (Absparse.kv_of kv)))
+     | "EV" :: c :: _ :: "add" :: idx :: v :: "-" :: _ -> see (Printf.sprintf "event %s add %s %s" c idx v)
+     | "EV" :: c :: _ :: "remove" :: idx :: _ -> see (Printf.sprintf "event %s remove %s" c idx)
      | "EV" :: c :: _ :: "custom" :: _ -> see ("custom " ^ c)
      | "EV" :: c :: _ :: k :: _ -> see ("event " ^ c ^ " " ^ k)
+     | "MQUNSUB" :: "conn" :: c :: _ -> see ("connunsub " ^ c)
      | "MQUNSUB" :: _ -> see "mqunsub"
+     | "DISC" :: c :: _ -> do_op ln (Core.Disc (nat_of_int (cidx c)))
      | "ERRLOG" :: _ -> see "errlog"
-     | ("DISC" | "SYSEV" | "CONNEV" | "EVICT" | "STOP" | "HTTP" | "SILENT" | "CRASH" | "STALL") :: _ ->
+     | ("SYSEV" | "CONNEV" | "EVICT" | "STOP" | "HTTP" | "SILENT" | "CRASH" | "STALL") :: _ ->
        raise (Out_of_profile (ln, "line " ^ lines.(!i)))
      | _ -> ());
     incr i
@@ -141,4 +235,5 @@ let run_core (files : string list) =
       | (nops, nouts, Some (ln, op, exp, obs)) ->
         Printf.printf "COREDIFF\t%s\t%d\t%s\t%s\t%s\n" path ln op exp obs
       | exception Out_of_profile (ln, msg) -> Printf.printf "COREOUT\t%s\t%d\t%s\n" path ln msg
-      | exception e -> Printf.printf "COREOUT\t%s\t0\t%s\n" path (Printexc.to_string e)) files
+      | exception e -> Printf.printf "COREOUT\t%s\t0\t%s\n" path (Printexc.to_string e)) files;
+  Hashtbl.iter (fun k n -> Printf.printf "CORECOVER\t%s\t%d\n" k n) cover
